@@ -99,6 +99,10 @@ func (p *Program) VerifyFunc(c *Contract) (res *FuncResult) {
 	CurDefs = map[string]*Term{}
 	SymRanges = map[string][2]*big.Int{}
 	ex.SymRangesMap = SymRanges
+	ArrayPrefix = map[string]arrayPrefix{}
+	ex.ArrayPrefixMap = ArrayPrefix
+	BaseLowerBound = map[string]*Term{}
+	ex.BaseLowerBoundMap = BaseLowerBound
 	if c.Options["nlmul"] == "uf" {
 		NLMulUF = true
 		NLMulComm = nil
